@@ -96,6 +96,55 @@ pub fn check_set(mask: u8) -> Result<u64, String> {
 			return Err(format!("set {mask:#08b}: iterator not exhausted (or not fused) after {n} steps"));
 		}
 	}
+	// overridable iterator methods and adaptors must agree with the plain model too
+	let mv: Vec<usize> = m.iter().copied().collect();
+	for k in 0..=n + 2 {
+		evals += 1;
+		// nth(k), then the iterator continues after the k+1 consumed items (or is exhausted)
+		let mut it = s.iter();
+		let got = it.nth(k).map(idx);
+		if got != mv.get(k).copied() {
+			return Err(format!("set {mask:#08b}: nth({k}) = {got:?}, expected {:?}", mv.get(k)));
+		}
+		let rest: Vec<usize> = it.clone().map(idx).collect();
+		let want_rest: Vec<usize> = mv.iter().skip(k + 1).copied().collect();
+		if rest != want_rest || it.len() != want_rest.len() {
+			return Err(format!("set {mask:#08b}: after nth({k}) the iterator yields {rest:?} (len {}), expected {want_rest:?}", it.len()));
+		}
+		let mut it = s.iter();
+		let got = it.nth_back(k).map(idx);
+		if got != mv.iter().rev().nth(k).copied() {
+			return Err(format!("set {mask:#08b}: nth_back({k}) = {got:?}"));
+		}
+		let rest: Vec<usize> = it.map(idx).collect();
+		let want_rest: Vec<usize> = mv.iter().rev().skip(k + 1).rev().copied().collect();
+		if rest != want_rest {
+			return Err(format!("set {mask:#08b}: after nth_back({k}) the iterator yields {rest:?}, expected {want_rest:?}"));
+		}
+		let skipped: Vec<usize> = s.iter().skip(k).map(idx).collect();
+		if skipped != mv.iter().skip(k).copied().collect::<Vec<_>>() {
+			return Err(format!("set {mask:#08b}: skip({k}) yields {skipped:?}"));
+		}
+		let mut sk = s.iter().skip(k);
+		while sk.next().is_some() {}
+		if sk.next().is_some() {
+			return Err(format!("set {mask:#08b}: skip({k}) yields items after None"));
+		}
+		let stepped: Vec<usize> = s.iter().step_by(k + 1).map(idx).collect();
+		if stepped != mv.iter().step_by(k + 1).copied().collect::<Vec<_>>() {
+			return Err(format!("set {mask:#08b}: step_by({}) yields {stepped:?}", k + 1));
+		}
+		let taken: Vec<usize> = s.iter().take(k).map(idx).collect();
+		if taken != mv.iter().take(k).copied().collect::<Vec<_>>() {
+			return Err(format!("set {mask:#08b}: take({k}) yields {taken:?}"));
+		}
+	}
+	if s.iter().rev().map(idx).collect::<Vec<_>>() != mv.iter().rev().copied().collect::<Vec<_>>() || s.iter().count() != n || s.iter().last().map(idx) != mv.last().copied() || Iterator::min(s.iter()).map(idx) != mv.first().copied() || Iterator::max(s.iter()).map(idx) != mv.last().copied() {
+		return Err(format!("set {mask:#08b}: rev/count/last/min/max disagree with the model"));
+	}
+	if s.iter().fold(0usize, |a, k| a * 7 + idx(k)) != mv.iter().fold(0usize, |a, k| a * 7 + k) || s.iter().rfold(0usize, |a, k| a * 7 + idx(k)) != mv.iter().rfold(0usize, |a, k| a * 7 + k) {
+		return Err(format!("set {mask:#08b}: fold/rfold disagree with the model"));
+	}
 	// renderings
 	let disj = s.as_disjunction().to_string();
 	let conj = s.as_conjunction().to_string();
